@@ -219,6 +219,18 @@ class AwsHooks:
     s_aws_min_int = s_aws_min_size
     s_aws_max_int = s_aws_max_size
 
+    def s_aws_round_up_to_power_of_two(self, num, st, e, args):
+        """success iff the result fits; then result >= n, result >= 1 (re-derived by C16's checks on math.inl)"""
+        n = args[0]
+        flag = num.fresh(st, "chk", None, (-1, 0))
+        tgt = target_of(num, st, e["a"][1])
+        if tgt is not None:
+            R = Poly.atom(num.fresh(st, "pow2", num.ty(tgt), (1, SIZE_MAX)))
+            num.write(tgt, R, st)
+            if n is not None:
+                st.cond[flag] = {"z": [("cmp", ">=", R, n), ("cmp", ">=", R, Poly.const(1))], "nz": []}
+        return Poly.atom(flag)
+
     # -- allocation
     def s_aws_mem_acquire(self, num, st, e, args):
         R = num.fresh(st, "blk", None, (1, SIZE_MAX))
